@@ -303,7 +303,27 @@ def h_real_git(i0: int, r1: int, k1: int) -> bool:
     return run(body_real_git, i0, r1, k1)
 
 
+
+def body_commit_step_menu(i0, i1, target):
+    """`body_commit_step` over the token menu (see _store.menu_steps): exhaustive for every partition."""
+    return _store.menu_steps(body_commit_step, i0, i1, target, with_hist=True)
+
+
+def h_commit_step_menu(i0: int, i1: int, target: int) -> bool:
+    """
+    pre: 0 <= i0 < 6 and 0 <= i1 < 6 and 0 <= target < 6
+    post: _
+    """
+    return run(body_commit_step_menu, i0, i1, target)
+
 HARNESSES = [
+    Harness("commit_step_menu", h_commit_step_menu, body_commit_step_menu, classes=[("menu:put", ("bare", 0, 0))],
+            parts={"quick": _store.parts(("bare", "tree"))}, bounds={"quick": {"n": 2, "blen": 2}, "thorough": {"n": 2, "blen": 2}},
+            budget={"quick": 100, "thorough": 200}, per_path_timeout={"quick": 60, "thorough": 60},
+            describe="the history obligations of commit_step over a menu of 7 body tokens (absent, two contents of one UID, another UID, to-be-normalised, "
+                     "no UID, invalid): pre-state and target chosen by the solver, written body and kind of earlier history "
+                     "looped inside; exhaustive over the menu for every (back end, operation, condition) partition",
+            encodes=_store.STEP_ENCODES),
     Harness("commit_step", h_commit_step, body_commit_step,
             classes=[("put:commit", ("bare", 0, 0)), ("put:nocommit", ("tree", 0, 0)), ("delete:commit", ("tree", 1, 0)),
                      ("delete:nocommit", ("bare", 1, 3)), ("read:nocommit", ("tree", 2, 0))],
